@@ -17,7 +17,7 @@ static const int c12_settable[] = { TJPARAM_STOPONWARNING, TJPARAM_BOTTOMUP, TJP
   TJPARAM_DENSITYUNITS, TJPARAM_MAXMEMORY, TJPARAM_MAXPIXELS, TJPARAM_SAVEMARKERS };
 #define C12_NSET ((int)(sizeof(c12_settable) / sizeof(c12_settable[0])))
 
-typedef struct { unsigned char *good, *icc, *prog, *ll; size_t ngood, nicc, nprog, nll; unsigned char img[48 * 40 * 3]; unsigned char prof[3000]; } c12_mat;
+typedef struct { unsigned char *good, *icc, *prog, *ll, *rgbj; size_t ngood, nicc, nprog, nll, nrgbj; unsigned char img[48 * 40 * 3]; unsigned char img4[48 * 40 * 4]; unsigned char yuv[48 * 40 * 2 + 64]; unsigned char prof[3000]; } c12_mat;
 
 static void c12_materials(c12_mat *m, unsigned long long seed)
 {
@@ -29,62 +29,91 @@ static void c12_materials(c12_mat *m, unsigned long long seed)
   tj3SetICCProfile(h, m->prof, sizeof(m->prof)); m->icc = NULL; m->nicc = 0; tj3Compress8(h, m->img, 48, 0, 40, TJPF_RGB, &m->icc, &m->nicc);
   tj3SetICCProfile(h, NULL, 0); tj3Set(h, TJPARAM_PROGRESSIVE, 1); m->prog = NULL; m->nprog = 0; tj3Compress8(h, m->img, 48, 0, 40, TJPF_RGB, &m->prog, &m->nprog);
   tj3Set(h, TJPARAM_PROGRESSIVE, 0); tj3Set(h, TJPARAM_LOSSLESS, 1); m->ll = NULL; m->nll = 0; tj3Compress8(h, m->img, 48, 0, 40, TJPF_RGB, &m->ll, &m->nll);
+  /* a JPEG in the RGB colourspace (Adobe marker, transform 0), a CMYK source image, and the planes of a 4:2:0 YUV image */
+  tj3Set(h, TJPARAM_LOSSLESS, 0); tj3Set(h, TJPARAM_SUBSAMP, TJSAMP_444); tj3Set(h, TJPARAM_COLORSPACE, TJCS_RGB);
+  m->rgbj = NULL; m->nrgbj = 0; tj3Compress8(h, m->img, 48, 0, 40, TJPF_RGB, &m->rgbj, &m->nrgbj);
   tj3Destroy(h);
+  for (i = 0; i < (int)sizeof(m->img4); i++) m->img4[i] = (unsigned char)(c03_mix(seed + 77ULL + (unsigned long long)(i / 4)) % 256ULL);
+  memset(m->yuv, 0, sizeof(m->yuv));
+  h = tj3Init(TJINIT_COMPRESS); tj3Set(h, TJPARAM_SUBSAMP, TJSAMP_420); tj3EncodeYUV8(h, m->img, 48, 0, 40, TJPF_RGB, m->yuv, 4); tj3Destroy(h);
 }
-static void c12_free(c12_mat *m) { tj3Free(m->good); tj3Free(m->icc); tj3Free(m->prog); tj3Free(m->ll); }
+static void c12_free(c12_mat *m) { tj3Free(m->good); tj3Free(m->icc); tj3Free(m->prog); tj3Free(m->ll); tj3Free(m->rgbj); }
 
-/* the probe: compress, decompress (with ICC retrieval) and transform with the handle's current settings */
-static unsigned long long c12_probe(tjhandle h, c12_mat *m, int prec, char *desc, size_t dsz)
+/* the probe: compress, decode planar YUV, compress from CMYK, decompress (with ICC retrieval) and transform with the handle's
+ * current settings; every part is digested on its own (hp[0..6]) so that a difference can be attributed */
+#define C12_NPART 7
+static const char *c12_part[C12_NPART] = { "compress", "decodeyuv", "compress-cmyk", "decompress", "icc", "transform", "transform-icc" };
+static unsigned long long c12_probe(tjhandle h, c12_mat *m, int prec, char *desc, size_t dsz, unsigned long long *hp, char *yuverr, size_t ysz)
 {
-  unsigned long long hsh = 14695981039346656037ULL, hp[4] = { 0, 0, 0, 0 }; unsigned char *jp = NULL, *jp2 = NULL, *icc = NULL; size_t jn = 0, jn2 = 0, iccn = 0; int rc1, rc2, rc3, rc4 = 0, i; static unsigned char out[64 * 64 * 4 * 2]; tjtransform xf;
+  unsigned long long hsh, all = 14695981039346656037ULL; unsigned char *jp = NULL, *jp2 = NULL, *icc = NULL; size_t jn = 0, jn2 = 0, iccn = 0; int rc1, rc2, rc3, rc4 = 0, i; static unsigned char out[64 * 64 * 4 * 2]; tjtransform xf;
   static unsigned short img16[48 * 40 * 3];
+  int rc6, rc7 = 0, rc5; size_t jn4 = 0, jn3 = 0;
 #define MIXB(p, n) do { size_t q_; for (q_ = 0; q_ < (n); q_++) { hsh ^= ((const unsigned char *)(p))[q_]; hsh *= 1099511628211ULL; } } while (0)
+#define PART(k) do { hp[k] = hsh; all ^= hsh; all *= 1099511628211ULL; hsh = 14695981039346656037ULL; } while (0)
+  hsh = 14695981039346656037ULL; yuverr[0] = 0;
   for (i = 0; i < 48 * 40 * 3; i++) img16[i] = (unsigned short)(m->img[i] >> (8 - (prec < 8 ? prec : 8)));
   if (prec <= 8) rc1 = tj3Compress8(h, m->img, 48, 0, 40, TJPF_RGB, &jp, &jn);
   else if (prec <= 12) rc1 = tj3Compress12(h, (short *)img16, 48, 0, 40, TJPF_RGB, &jp, &jn);
   else rc1 = tj3Compress16(h, img16, 48, 0, 40, TJPF_RGB, &jp, &jn);
   if (rc1 == 0) MIXB(jp, jn); else { const char *e = tj3GetErrorStr(h); MIXB(e, strlen(e)); }
-  hp[0] = hsh;
+  PART(0);
+  {
+    /* decoding planar YUV (before any JPEG is read by the probe itself: what the instance remembers of earlier JPEGs must not matter),
+       and compressing from a four-component pixel format */
+    int ss = tj3Get(h, TJPARAM_SUBSAMP); unsigned char *jp4 = NULL;
+    tj3Set(h, TJPARAM_SUBSAMP, TJSAMP_420);
+    memset(out, 0, 48 * 40 * 3);
+    rc6 = tj3DecodeYUV8(h, m->yuv, 4, out, 48, 0, 40, TJPF_RGB);
+    if (rc6 == 0) MIXB(out, 48 * 40 * 3); else { const char *e = tj3GetErrorStr(h); MIXB(e, strlen(e)); snprintf(yuverr, ysz, "%s", e); }
+    tj3Set(h, TJPARAM_SUBSAMP, ss);
+    PART(1);
+    rc7 = prec <= 8 ? tj3Compress8(h, m->img4, 48, 0, 40, TJPF_CMYK, &jp4, &jn4) : 0;
+    if (prec <= 8) { if (rc7 == 0) MIXB(jp4, jn4); else { const char *e = tj3GetErrorStr(h); MIXB(e, strlen(e)); } }
+    tj3Free(jp4);
+    PART(2);
+  }
   memset(out, 0, sizeof(out));
   rc2 = tj3DecompressHeader(h, m->icc, m->nicc);
   if (rc2 == 0) { rc2 = tj3Decompress8(h, m->icc, m->nicc, out, 0, TJPF_RGB); rc4 = tj3GetICCProfile(h, &icc, &iccn); }
   if (rc2 == 0) MIXB(out, 48 * 40 * 3); else { const char *e = tj3GetErrorStr(h); MIXB(e, strlen(e)); }
-  hp[1] = hsh;
+  PART(3);
   if (rc4 == 0 && icc) MIXB(icc, iccn);
-  hp[2] = hsh;
+  PART(4);
   memset(&xf, 0, sizeof(xf)); xf.op = TJXOP_ROT90; xf.options = TJXOPT_TRIM;
   rc3 = tj3Transform(h, m->prog, m->nprog, 1, &jp2, &jn2, &xf);
   if (rc3 == 0) MIXB(jp2, jn2); else { const char *e = tj3GetErrorStr(h); MIXB(e, strlen(e)); }
-  hp[3] = hsh;
+  PART(5);
   {
     /* a second transformation, of the image that carries an ICC profile (APP2 segments): which extra markers reach the output is decided by
        the current TJPARAM_SAVEMARKERS alone, not by the values it had during earlier calls on the instance */
-    unsigned char *jp3 = NULL; size_t jn3 = 0; int rc5; unsigned long long h4;
+    unsigned char *jp3 = NULL;
     memset(&xf, 0, sizeof(xf)); xf.op = TJXOP_NONE; xf.options = 0;
     rc5 = tj3Transform(h, m->icc, m->nicc, 1, &jp3, &jn3, &xf);
     if (rc5 == 0) MIXB(jp3, jn3); else { const char *e = tj3GetErrorStr(h); MIXB(e, strlen(e)); }
-    h4 = hsh;
-    snprintf(desc, dsz, "c%d/%zu:%llx d%d:%llx icc%d/%zu:%llx t%d/%zu:%llx m%d/%zu:%llx", rc1, jn, hp[0], rc2, hp[1], rc4, iccn, hp[2], rc3, jn2, hp[3], rc5, jn3, h4);
+    PART(6);
     tj3Free(jp3);
   }
+  snprintf(desc, dsz, "c%d/%zu:%llx y%d:%llx k%d/%zu:%llx d%d:%llx icc%d/%zu:%llx t%d/%zu:%llx m%d/%zu:%llx", rc1, jn, hp[0], rc6, hp[1], rc7, jn4, hp[2], rc2, hp[3], rc4, iccn, hp[4], rc3, jn2, hp[5], rc5, jn3, hp[6]);
   tj3Free(jp); tj3Free(jp2); tj3Free(icc);
-  return hsh;
+  return all;
 }
 
 /* hist seed nsteps */
 static int c12_hist(toks_t *t)
 {
-  unsigned long long rs = (unsigned long long)tll(t, 1) * 11400714819323198485ULL + 1ULL; int nsteps = (int)tl(t, 2), s, i; c12_mat m; tjhandle used, fresh; char d1[300], d2[300], histdesc[400] = ""; unsigned long long h1, h2;
+  unsigned long long rs = (unsigned long long)tll(t, 1) * 11400714819323198485ULL + 1ULL; int nsteps = (int)tl(t, 2), s, i; c12_mat m; tjhandle used, fresh; char d1[400], d2[400], histdesc[400] = "", parts[200] = "", ye1[120], ye2[120]; unsigned long long h1, h2, p1[C12_NPART], p2[C12_NPART];
   static unsigned char out[256 * 256 * 4 * 2]; int prec;
   c12_materials(&m, rs);
   used = tj3Init(TJINIT_TRANSFORM);
   for (s = 0; s < nsteps; s++) {
-    int k = C12_RND(12); unsigned char *jp = NULL; size_t jn = 0; char tag[24];
+    int k = C12_RND(13); unsigned char *jp = NULL; size_t jn = 0; char tag[24];
     switch (k) {
     case 0: case 1: {   /* parameter changes, valid and invalid */
       int p = c12_settable[C12_RND(C12_NSET)], v = C12_P(70) ? C12_RND(12) : (C12_P(50) ? C12_RND(200) - 50 : C12_RND(100000));
       tj3Set(used, p, v); snprintf(tag, sizeof(tag), "s%d=%d ", p, v); break; }
-    case 2: { int rc = tj3Compress8(used, m.img, 48, 0, 40, TJPF_RGB, &jp, &jn); snprintf(tag, sizeof(tag), "c%d ", rc); tj3Free(jp); break; }
+    case 2: { int pf = C12_P(50) ? TJPF_RGB : C12_P(50) ? TJPF_GRAY : TJPF_CMYK;   /* one, three and four components */
+      int rc = tj3Compress8(used, pf == TJPF_CMYK ? m.img4 : m.img, 48, 0, 40, pf, &jp, &jn); snprintf(tag, sizeof(tag), "c%d:%d ", pf, rc); tj3Free(jp); break; }
+    case 12: { int rc = tj3Decompress8(used, m.rgbj, m.nrgbj, out, 0, C12_P(50) ? TJPF_RGB : TJPF_GRAY); snprintf(tag, sizeof(tag), "a%d ", rc); break; }   /* Adobe marker, RGB colourspace */
     case 3: { int rc = tj3Decompress8(used, m.good, m.ngood, out, 0, C12_RND(TJ_NUMPF)); snprintf(tag, sizeof(tag), "d%d ", rc); break; }
     case 4: {   /* truncated at a seeded place: header, inside the ICC marker, inside the data */
       size_t cut = C12_P(40) ? 40 + (size_t)C12_RND(2900) : (size_t)C12_RND((int)m.nicc); int rc;
@@ -122,10 +151,12 @@ static int c12_hist(toks_t *t)
   }
   if (getenv("C12_DEBUG")) for (i = 0; i < C12_NSET; i++) fprintf(stderr, "param %d used %d fresh %d\n", c12_settable[i], tj3Get(used, c12_settable[i]), tj3Get(fresh, c12_settable[i]));
   prec = tj3Get(used, TJPARAM_PRECISION); if (prec < 2 || prec > 16) prec = 8;
-  h1 = c12_probe(used, &m, prec, d1, sizeof(d1));
-  h2 = c12_probe(fresh, &m, prec, d2, sizeof(d2));
+  h1 = c12_probe(used, &m, prec, d1, sizeof(d1), p1, ye1, sizeof(ye1));
+  h2 = c12_probe(fresh, &m, prec, d2, sizeof(d2), p2, ye2, sizeof(ye2));
   printf("R skip %s\n", d2);
-  if (h1 != h2) printf("O fail hist: after the history [%s] the probe gives %s (digest %llu); a fresh instance with the same parameter settings gives %s (digest %llu)\n", histdesc, d1, h1, d2, h2);
+  for (i = 0; i < C12_NPART; i++) if (p1[i] != p2[i]) { strcat(parts, parts[0] ? "," : ""); strcat(parts, c12_part[i]); }
+  if (h1 != h2) printf("O fail hist: probe parts that differ: {%s}%s%s%s; after the history [%s] the probe gives %s; a fresh instance with the same parameter settings gives %s\n", parts,
+                       ye1[0] ? " used decodeyuv error: '" : "", ye1, ye1[0] ? "'" : "", histdesc, d1, d2);
   else printf("O ok\n");
   tj3Destroy(used); tj3Destroy(fresh); c12_free(&m);
   return 1;
